@@ -9,7 +9,7 @@ Lemma left_main_stable lvl c s e s' p : wf c = true -> Inv1 c s -> step lvl c s 
   left_main s p -> left_main s' p.
 Proof.
   intros W I Hs [L1 L2].
-  destruct (R_effect lvl c s e s' W (i_pend c s I) Hs p) as [Hq _|_ B1 _ _ _ _ _ _ _ _ _|_ A1 A2 A3 _ A4 A5 A6 _].
+  destruct (R_effect lvl c s e s' W (i_pend c s I) Hs p) as [Hq _|_ B1 _ _ _ _ _ _ _ _ _|_ A1 A2 A3 _ A4 A5 A6 _ _].
   - destruct Hq as (Hq & _). unfold left_main. rewrite Hq. auto.
   - exfalso. destruct (rootb p) eqn:Er.
     + contradiction.
@@ -76,7 +76,7 @@ Proof.
     + apply Hst. apply (n_cp c s I4); auto.
   - (* cancelled mode of a nested run *)
     intros x Hx0 Hcm.
-    destruct (R_effect lvl c s e s' W (i_pend c s I1) Hs x) as [Hq _|_ B1 _ B3 _ _ _ _ _ _ _ B9|_ A1 A2 A3 _ A4 A5 A6 _].
+    destruct (R_effect lvl c s e s' W (i_pend c s I1) Hs x) as [Hq _|_ B1 _ B3 _ _ _ _ _ _ _ B9|_ A1 A2 A3 _ A4 A5 A6 _ _].
     + destruct Hq as (Q1 & _ & _ & _ & _ & _ & _ & _ & Q9). rewrite Q1, Q9 in Hcm.
       apply Hst. apply (n_cm c s I4); auto.
     + exfalso. destruct Hcm as [Hcm|Hcm].
